@@ -680,7 +680,11 @@ def _sanitize_names(spec):
                 new += 'x'
             p['name'] = new
     how = _library_accepts(spec)
-    if how is not None:
+    if how is not None and all(p['name'].isidentifier() and p['name'].isascii() for p in spec['params']):
+        for j, p in enumerate(spec['params']):
+            spec['refused'].append([p['name'][:60], 'in_combination_' + how, gen.name_class(p['name'])])
+            p['name'] = 'C%d_plain' % j
+    elif how is not None:
         # the combination is refused although each name alone is accepted: fall back to plain names, counted
         for j, p in enumerate(spec['params']):
             if not (p['name'].isidentifier() and p['name'].isascii()):
@@ -1047,7 +1051,10 @@ def run_optim(case, rec):
     except BaseException as e:  # noqa
         MON.mode = 'off'
         rec.c('estimate_raised_' + type(e).__name__)
-        rec.inconc(f'estimate({algo}) raised {type(e).__name__}: {str(e)[:200]}')
+        if type(e).__name__ == 'OptimizationError':
+            rec.c('estimate_optimiser_gave_up')  # the algorithm's failure on this problem: the case is dropped, no verdict
+        else:
+            rec.inconc(f'estimate({algo}) raised {type(e).__name__}: {str(e)[:200]}')
         return sess
     sess.boundary_hook = None
     start1 = sess.first_eval['f'] if sess.first_eval else None
@@ -1118,7 +1125,10 @@ def run_crash_optim(case, rec):
         bg.estimate()
     except BaseException as e:  # noqa
         MON.mode = 'off'
-        rec.inconc(f'estimate({algo}) raised {type(e).__name__}: {str(e)[:200]}')
+        if type(e).__name__ == 'OptimizationError':
+            rec.c('estimate_optimiser_gave_up')  # the algorithm's failure on this problem: the case is dropped, no verdict
+        else:
+            rec.inconc(f'estimate({algo}) raised {type(e).__name__}: {str(e)[:200]}')
         return sess
     MON.mode = 'off'
     start1 = sess.first_eval['f'] if sess.first_eval else None
@@ -1162,7 +1172,10 @@ def run_bootstrap(case, rec, spec=None, algo=None, nboot=None):
     except BaseException as e:  # noqa
         MON.mode = 'off'
         rec.c('estimate_raised_' + type(e).__name__)
-        rec.inconc(f'estimate({algo}, run_bootstrap=True) raised {type(e).__name__}: {str(e)[:200]}')
+        if type(e).__name__ == 'OptimizationError':
+            rec.c('estimate_optimiser_gave_up')  # the algorithm's failure on this problem: the case is dropped, no verdict
+        else:
+            rec.inconc(f'estimate({algo}, run_bootstrap=True) raised {type(e).__name__}: {str(e)[:200]}')
         return sess
     MON.mode = 'off'
     rec.c('estimations_with_bootstrap')
@@ -1203,7 +1216,10 @@ def run_interleaved(case, rec):
         results = bg.estimate()
     except BaseException as e:  # noqa
         MON.mode = 'off'
-        rec.inconc(f'estimate({algo}) raised {type(e).__name__}: {str(e)[:200]}')
+        if type(e).__name__ == 'OptimizationError':
+            rec.c('estimate_optimiser_gave_up')  # the algorithm's failure on this problem: the case is dropped, no verdict
+        else:
+            rec.inconc(f'estimate({algo}) raised {type(e).__name__}: {str(e)[:200]}')
         return sess
     start1 = sess.first_eval['f'] if sess.first_eval else None
     if sess.calls:
